@@ -168,9 +168,35 @@ fn u2_one(layouts: &LayoutSet, rng: &mut StdRng, b: &Value, only: &[&'static str
         mutators_and_rules: toggle(cfg["gr"].as_str().unwrap()),
     };
     let r = cfg["r"].as_u64().unwrap() as usize;
-    let rec = run_call(&script, DEFAULT_MAX_OPS, || unreal2::query(&addr(7777), &g, timeouts(r)));
+    // every other case goes through the definition-driven entry point of an Unreal 2 row of the definitions table, the toggles
+    // travelling as the caller's extra request settings
+    let row: Option<&'static str> = if rng.gen_bool(0.5) {
+        let mut ids: Vec<&'static str> = gamedig::GAMES
+            .entries()
+            .filter(|(_, g)| matches!(g.protocol, gamedig::protocols::types::Protocol::Unreal2))
+            .map(|(id, _)| *id)
+            .collect();
+        ids.sort();
+        ids.choose(rng).copied()
+    } else {
+        None
+    };
+    let rec = match row {
+        Some(id) => {
+            let game = gamedig::GAMES.get(id).unwrap();
+            let x = gamedig::protocols::types::ExtraRequestSettings::default().set_gather_players(g.players).set_gather_rules(g.mutators_and_rules);
+            let ip = addr(7777).ip();
+            run_call_json(&script, DEFAULT_MAX_OPS, move || {
+                match gamedig::query_with_timeout_and_extra_settings(game, &ip, Some(7777), timeouts(r), Some(x)) {
+                    Ok(resp) => Ok(crate::valve::strip_enum_wrappers(&serde_json::to_value(resp.as_original()).unwrap()).clone()),
+                    Err(e) => Err(format!("{:?}", e.kind)),
+                }
+            })
+        }
+        None => run_call(&script, DEFAULT_MAX_OPS, || unreal2::query(&addr(7777), &g, timeouts(r))),
+    };
     rep.evaluations += 1;
-    let case = json!({"behaviour": b, "script": script});
+    let case = json!({"behaviour": b, "script": script, "row": row});
     let mut fail = |prop: &'static str, sig: String, detail: Value| {
         if only.is_empty() || only.contains(&prop) {
             rep.violation(prop, &sig, json!({"kind":"unreal2-behaviour","case":case,"detail":detail,
